@@ -40,13 +40,45 @@ class _DTMeta(type(_REAL_DATETIME)):
         return isinstance(inst, _REAL_DATETIME)
 
 
+class _Files:
+    """Read-only mapping path -> bytearray over (path -> inode -> data)."""
+
+    def __init__(self, fs):
+        self._fs = fs
+
+    def __contains__(self, p):
+        return p in self._fs.ino_of
+
+    def __iter__(self):
+        return iter(self._fs.ino_of)
+
+    def __len__(self):
+        return len(self._fs.ino_of)
+
+    def __getitem__(self, p):
+        return self._fs.inodes[self._fs.ino_of[p]]
+
+    def get(self, p, d=None):
+        i = self._fs.ino_of.get(p)
+        return d if i is None else self._fs.inodes[i]
+
+    def keys(self):
+        return self._fs.ino_of.keys()
+
+    def items(self):
+        return [(p, self._fs.inodes[i]) for p, i in self._fs.ino_of.items()]
+
+
 class SimFS:
     MUTATING = ("mkdir", "creat", "trunc", "write", "close", "unlink", "rename", "rmdir")
 
     def __init__(self, root="/simfs", bufsize=8192, passthrough=(), clock_step=1.0):
         self.root = root.rstrip("/")
         self.dirs = {self.root}
-        self.files = {}            # path -> bytearray
+        self.files = _Files(self)  # path -> bytearray (view over path -> inode -> data)
+        self.ino_of = {}           # path -> inode number
+        self.inodes = {}           # inode number -> bytearray (open handles follow the inode, not the path)
+        self.next_ino = 1
         self.journal = []          # raw mutating operations (tuples)
         self.events = 0
         self.bufsize = bufsize
@@ -86,6 +118,15 @@ class SimFS:
             return False
         return any(p == q or p.startswith(q + "/") for q in self.passthrough)
 
+    def _rel(self, path):
+        """Pass-through paths as they appear in traces: relative to the scratch
+        prefix (which contains a pid and must not reach a digest)."""
+        p = os.path.abspath(os.fspath(path))
+        for q in self.passthrough:
+            if p == q or p.startswith(q + "/"):
+                return "<scratch>" + p[len(q):]
+        return p
+
     def _tick(self, kind, *args):
         """Every seam operation: yield to the scheduler, advance the clock."""
         sim = sched.current_sim()
@@ -106,7 +147,7 @@ class SimFS:
         idx = len(self.journal)
         if self.kill_at is not None and idx == self.kill_at:
             if op[0] == "write" and self.torn:
-                self._apply(("write", op[1], op[2], op[3][:self.torn]))
+                self._apply(("write", op[1], op[2], op[3][:self.torn], op[4]))
             self.frozen = True
             raise SimKill(f"killed in journal op #{idx} {op[0]}")
         if self.record:
@@ -120,33 +161,40 @@ class SimFS:
         elif k == "rmdir":
             self.dirs.discard(op[1])
         elif k == "creat":
-            self.files[op[1]] = bytearray()
+            path, ino = op[1], op[2]
+            if self.ino_of.get(path) == ino:
+                del self.inodes[ino][:]                 # O_TRUNC of the existing inode
+            else:
+                self.ino_of[path] = ino
+                self.inodes[ino] = bytearray()
+                self.next_ino = max(self.next_ino, ino + 1)
         elif k == "trunc":
-            if op[1] in self.files:
-                del self.files[op[1]][op[2]:]
+            buf = self.inodes.get(op[3])
+            if buf is not None:
+                del buf[op[2]:]
         elif k == "write":
-            buf = self.files.get(op[1])
+            buf = self.inodes.get(op[4])
             if buf is None:
-                return                      # file unlinked while open: data is unreachable
+                return
             off, data = op[2], op[3]
             if off > len(buf):
                 buf.extend(b"\0" * (off - len(buf)))
             buf[off:off + len(data)] = data
         elif k == "unlink":
-            self.files.pop(op[1], None)
+            self.ino_of.pop(op[1], None)              # the inode lives on for handles that are still open
         elif k == "rename":
             src, dst = op[1], op[2]
-            if src in self.files:
-                self.files[dst] = self.files.pop(src)
+            if src in self.ino_of:
+                self.ino_of[dst] = self.ino_of.pop(src)
             elif src in self.dirs:
                 pre = src + "/"
                 for d in sorted(self.dirs):
                     if d == src or d.startswith(pre):
                         self.dirs.discard(d)
                         self.dirs.add(dst + d[len(src):])
-                for f in sorted(self.files):
+                for f in sorted(self.ino_of):
                     if f.startswith(pre):
-                        self.files[dst + f[len(src):]] = self.files.pop(f)
+                        self.ino_of[dst + f[len(src):]] = self.ino_of.pop(f)
         elif k == "close":
             pass
         else:
@@ -162,14 +210,16 @@ class SimFS:
             fs._apply(op)
         if torn and upto < len(journal) and journal[upto][0] == "write":
             op = journal[upto]
-            fs._apply(("write", op[1], op[2], op[3][:torn]))
+            fs._apply(("write", op[1], op[2], op[3][:torn], op[4]))
         fs.record = True
         return fs
 
     def clone(self):
         fs = SimFS(self.root, self.bufsize, self.passthrough, self.clock_step)
         fs.dirs = set(self.dirs)
-        fs.files = {k: bytearray(v) for k, v in self.files.items()}
+        fs.ino_of = dict(self.ino_of)
+        fs.inodes = {i: bytearray(self.inodes[i]) for i in set(self.ino_of.values())}
+        fs.next_ino = self.next_ino
         return fs
 
     def state(self):
@@ -209,16 +259,22 @@ class SimFS:
         elif m == "x":
             if exists:
                 raise _err(errno.EEXIST, p)
-            self._journal(("creat", p))
+            self._journal(("creat", p, self._new_ino()))
         elif m == "w":
-            self._journal(("creat", p))      # create or truncate: one raw operation (O_CREAT|O_TRUNC)
+            # create or truncate: one raw operation (O_CREAT|O_TRUNC); truncation keeps the inode
+            self._journal(("creat", p, self.ino_of[p] if exists else self._new_ino()))
         elif m == "a":
             if not exists:
-                self._journal(("creat", p))
+                self._journal(("creat", p, self._new_ino()))
         bufsize = self.bufsize
         if buffering == 0:
             bufsize = 0
         return SimFile(self, p, m, plus, binary, encoding or "utf-8", bufsize, mode)
+
+    def _new_ino(self):
+        i = self.next_ino
+        self.next_ino += 1
+        return i
 
     def stat(self, p):
         self._tick("stat", p[len(self.root):])
@@ -291,7 +347,8 @@ class SimFile:
         self._append = (m == "a")
         self._bufsize = bufsize
         self._wbuf = bytearray()
-        self._pos = len(fs.files.get(path, b"")) if m == "a" else 0
+        self._ino = fs.ino_of.get(path)
+        self._pos = len(fs.inodes.get(self._ino, b"")) if m == "a" else 0
         self.closed = False
         self.name = path
         self.mode = mode
@@ -333,7 +390,7 @@ class SimFile:
             raise ValueError("I/O operation on closed file.")
 
     def _data(self):
-        d = self._fs.files.get(self._path)
+        d = self._fs.inodes.get(self._ino)
         return d if d is not None else bytearray()
 
     # -- writing
@@ -365,14 +422,14 @@ class SimFile:
             self._wbuf = bytearray()
             off = len(self._data()) if self._append else self._pos
             self._fs._tick("write", self._path[len(self._fs.root):], len(data))
-            self._fs._journal(("write", self._path, off, data))
+            self._fs._journal(("write", self._path, off, data, self._ino))
             self._pos = off + len(data)
 
     def truncate(self, size=None):
         self.flush()
         size = self._pos if size is None else size
         self._fs._tick("trunc", self._path[len(self._fs.root):], size)
-        self._fs._journal(("trunc", self._path, size))
+        self._fs._journal(("trunc", self._path, size, self._ino))
         return size
 
     def close(self):
@@ -469,7 +526,7 @@ def _route(name, simname=None, nargs=1, mut=False):
             if p is not None:
                 return getattr(fs, simname or name)(p, *a, **{kk: vv for kk, vv in k.items() if kk != "dir_fd" and kk != "follow_symlinks"})
             if fs._pass(path):
-                fs._tick("real:" + name, os.fspath(path))
+                fs._tick("real:" + name, fs._rel(path))
                 if mut:
                     fs.mutations_outside.append((name, os.fspath(path)))
         return real(path, *a, **k)
@@ -484,7 +541,7 @@ def _open(file, mode="r", *a, **k):
         if p is not None:
             return fs.open(p, mode, *a, **k)
         if fs._pass(file):
-            fs._tick("real:open", os.fspath(file), mode)
+            fs._tick("real:open", fs._rel(file), mode)
             if mode.strip("bt") != "r":
                 fs.mutations_outside.append(("open", os.fspath(file), mode))
     return _REAL["open"](file, mode, *a, **k)
@@ -499,7 +556,7 @@ def _rename(src, dst, *a, **k):
         if (ps is None) != (pd is None):
             raise _err(errno.EXDEV, os.fspath(src))
         if fs._pass(src):
-            fs._tick("real:rename", os.fspath(src))
+            fs._tick("real:rename", fs._rel(src))
             fs.mutations_outside.append(("rename", os.fspath(src), os.fspath(dst)))
     return _REAL["rename"](src, dst, *a, **k)
 
@@ -511,7 +568,7 @@ def _unlink(path, *a, **k):
         if p is not None:
             return fs.unlink(p)
         if fs._pass(path):
-            fs._tick("real:unlink", os.fspath(path))
+            fs._tick("real:unlink", fs._rel(path))
             fs.mutations_outside.append(("unlink", os.fspath(path)))
     return _REAL["unlink"](path, *a, **k)
 
